@@ -93,6 +93,18 @@ def build(backend, tables=True, profile="release", features=()):
     return binp
 
 
+def build_stepper():
+    """compile tools/stepper.c (ptrace single-stepper for C10); returns the binary path"""
+    os.makedirs(BUILD, exist_ok=True)
+    src = os.path.join(os.path.dirname(os.path.abspath(__file__)), "stepper.c")
+    dst = os.path.join(BUILD, "stepper")
+    if not os.path.exists(dst) or os.path.getmtime(dst) < os.path.getmtime(src):
+        r = subprocess.run(["gcc", "-O2", "-o", dst, src], stdout=subprocess.PIPE, stderr=subprocess.STDOUT, text=True)
+        if r.returncode != 0:
+            raise ToolError("stepper build failed: " + r.stdout[-2000:])
+    return dst
+
+
 def build_many(specs, jobs=4):
     """specs: list of (backend, tables, profile, features); returns {cfg_id: path}."""
     out = {}
